@@ -204,7 +204,7 @@ def rule_fanout(ctx, c, rule):
         if not (c.from_role(src, "submit") and any(".collect_token" in o.path for o in src)):
             continue
         n += 1
-        body = {b for b in fn.reach([x]) if x in fn.reach([b]) and not fn.blocks[b]["cleanup"]}
+        body = {b for b in fn.natural_loop(x) if not fn.blocks[b]["cleanup"]}
         none = set()
         for sb in result_switches(fn, x):
             none |= {(a, d) for a, d, _ in fn.variant_edges(sb, ["None"])}
